@@ -107,6 +107,15 @@ func c03Authentic(entry string, w *core.Rand) map[string]string {
 	}
 }
 
+// c03Canon is the GM/T 0003.5 example tuple (pubx, puby, e, r, s).
+var c03Canon = [5][]byte{
+	unhx("09f9df311e5421a150dd7d161e4bc5c672179fad1833fc076bb08ff356f35020"),
+	unhx("ccea490ce26775a52dc6ea718cc1aa600aed05fbf35e084a6632f6072da9ad13"),
+	unhx("f0b43e94ba45accaace692ed534382eb17e6ab5a19ce7b31f4486fdfc0d28640"),
+	unhx("f5a03b0648d2c4630eeac513e1bb81a15944da3827d5b74143ac7eaceee720b3"),
+	unhx("b1b6aa29df212fd8763182bc0d421ca1bb9038fd1f7f42d4840b69c485bbc1aa"),
+}
+
 func fits32(v *big.Int) bool { return v.Sign() >= 0 && v.BitLen() <= 256 }
 
 // c03Byzantine builds a solved-for tuple of the given kind for VerifyHashed.
@@ -321,6 +330,13 @@ func (c03) Execute(sc core.Script, keep bool) *core.Result {
 	if s.Byz != "" {
 		res.Faults["byz:"+s.Byz]++
 	}
+	// Canonical prelude: one verification of a fixed authentic tuple in fresh buffers, so
+	// that whatever the library may remember from earlier runs in this worker process (a
+	// last-key cache, say) is in the same state at the start of every run. Without it a
+	// stateful library makes runs depend on their predecessors and replays inexact.
+	core.Catch(func() {
+		sm2.VerifyHashed(append([]byte{}, c03Canon[0]...), append([]byte{}, c03Canon[1]...), append([]byte{}, c03Canon[2]...), append([]byte{}, c03Canon[3]...), append([]byte{}, c03Canon[4]...))
+	})
 	// receive buffers reused across deliveries
 	recv := map[string][]byte{}
 	deliver := func(fields map[string][]byte) map[string][]byte {
